@@ -9,17 +9,50 @@ TB = ("Trusted: rustc's MIR construction, type checking and callee resolution; t
       "mirtab's abstract semantics for the MIR constructs that occur and its callee-model table "
       "(Try::branch, FromResidual, lossless Into, count_ones, panic entry points); ")
 
+LAY = ("Extracts the complete decision table of every KeyboardLayout impl (124 keys x 512 modifier sets x 2 modes, Us104Key fall-through and "
+       "Modifiers predicates inlined) from type-checked MIR by value-set abstract interpretation; the table is exact because all domains are finite and all CFGs acyclic. ")
+
 INFO = {
- 'C01': ('other', '4 C01', "Decides agreement of the complete extracted Set 2 automaton (6 prefix contexts x 256 bytes, contexts identified by the prefix history that reaches them from new()) with the frozen IBM/Microsoft Set 2 table, incl. next-context of every cell; exhaustive, no sampling. 'other' because the oracle is an external table, not a theorem.",
+ 'C01': ('other', '4 C01', "Decides agreement of the complete extracted Set 2 automaton (6 prefix contexts x 256 bytes, contexts identified by the prefix history that reaches them from new()) with the frozen IBM/Microsoft Set 2 table, incl. the next context of every cell and that every reachable state is one of those contexts; exhaustive, no sampling. 'other' because the oracle is an external table, not a theorem.",
          TB + "reference/scancodes.json (transcribed from the README table, two README typos corrected, cross-checked against the README on every run)."),
  'C02': ('other', '4 C02', "Same as C01 for Set 1 (3 contexts x 256 bytes). The tree has one genuine defect (five JIS keys filed under E0), recorded as 20 known-finding cells; every other disagreeing cell is a violation.",
          TB + "reference/scancodes.json."),
- 'C07': ('proof', '4 C07', "Inductive argument over the extracted one-step transition relation of every ScancodeSet impl: every event/error cell of every reachable state returns to the initial state, and the Ok(None) edges form a DAG of depth <= 2 (Set 2) / 1 (Set 1). Holds for streams of any length by induction; thorough tier additionally aggregates all 2^32 four-byte streams over the extracted automaton.",
-         TB + "the reachable-state set is computed on the extracted relation (field `state` is private; writers are only new/advance_state, checked under C08)."),
+ 'C03': ('other', '4 C03', LAY + "Every cell that selects the base, shift or AltGr level (CapsLock off, Ctrl not mapped, not Shift+AltGr; all values of the other flags) is compared with a frozen per-standard reference table (accepted-character sets). Decides agreement with the reference; the reference's own correctness is outside any static argument.",
+         TB + "reference/layouts/*.json, written offline from memory of the layout standards and reviewed cell by cell; this is the one oracle whose authority is the author's."),
+ 'C04': ('proof', '4 C04', "One-step transition of each of the nine flags extracted from the generic process_keyevent body (analysed once, parametrically in L) and compared with the specified transition on every path class x relevant atom valuation; initial state from new(); who-may-write scan over all 91+ bodies, no &mut escape, private field. 'Held iff last event was a press' and lock parity follow for histories of any length by induction over the transition relation.",
+         TB + "reference/keys.json (modifier key -> flag map as stated by the property)."),
+ 'C05': ('proof', '4 C05', "Decision list of Ps2Decoder::add_word (private checker inlined) over all 2048 11-bit words equals the frame specification including error priority; round-trip and single-bit-corruption corollaries read off the same table. Thorough: all 65536 u16 words (reported, not judged above bit 10).",
+         TB + "nothing else (the specification is the property statement itself)."),
+ 'C06': ('proof', '4 C06', "Symbolic-register induction: 11 abstract decoder states (register as a term over ghost bits) are computed by chaining add_bit from the new() state; bits 1-10 return Ok(None); the 11th-bit result equals add_word on all 2048 ghost assignments; the post-state is syntactically the new() state on every path (Ok and Err), so frames cannot influence each other; clear() from each abstract state gives the new() state.",
+         TB + "nothing else."),
+ 'C07': ('proof', '4 C07', "Inductive argument over the extracted one-step transition relation of every ScancodeSet impl: every event/error cell of every reachable state returns to the initial state, and the Ok(None) edges form a DAG of depth <= 2 (Set 2) / 1 (Set 1). Thorough tier additionally aggregates all 2^32 four-byte streams over the extracted automaton.",
+         TB + "the reachable-state set is computed on the extracted relation (private state field; writers checked under C08)."),
+ 'C08': ('proof', '4 C08', "Every public operation is interpreted abstractly over all inputs x the reachable-state invariant of its component; no path class may end in an Assert failure (overflow, shift range, bounds, division), a panic entry point or an unreachable terminator. Invariants are fixpoints: abstract shift-register states closed under all field writers; scancode states reachable over the extracted automaton. The trap-site inventory is listed in the evidence and every site must lie in an analysed body.",
+         TB + "panic freedom of the inlined core library bodies is decided from their real MIR where available, otherwise trusted per the model table; derived Debug/Hash impls are out of scope."),
+ 'C09': ('proof', '4 C09', LAY + "Letter key = whatever the layout itself types unmodified; Ctrl+letter cells must be letter-0x60 in all states; Map and Ignore tables must agree wherever Ctrl is not held or the key is not a letter. No external oracle.",
+         TB + "nothing else."),
+ 'C10': ('proof', '4 C10', LAY + "Cased-letter keys (lowercase base whose single-character uppercase is the shift output, incl. national letters): table(m+CapsLock) = table(m with Shift inverted); all other keys: table(m+CapsLock) = table(m). No external oracle.",
+         TB + "Python's str.upper() as the Unicode simple uppercase mapping."),
+ 'C11': ('proof', '4 C11', LAY + "Each table is constant on every class of equal (Shift, Ctrl, AltGr, CapsLock[, NumLock on the 17 numpad keys]) x mode; the five public predicates' truth tables (512 rows each) equal their stated groupings.",
+         TB + "reference/keys.json (which 17 keys are numpad keys)."),
+ 'C12': ('proof', '4 C12', LAY + "The union of Unicode outputs over 124 keys x {no modifier, one Shift, AltGr alone} contains U+0020..U+007E, per layout.",
+         TB + "nothing else."),
  'C13': ('other', '4 C13', "Sibling agreement of the two extracted automata modulo the frozen i8042 translation table, both directions, make and break forms. 10 known-finding keys (same root cause as C02).",
          TB + "reference/i8042_xlat.json (written from memory offline; cross-validated at run time against all reference rows that have both columns)."),
+ 'C14': ('proof', '4 C14', "Per path class of the generic process_keyevent x (key, key state, rctrl2): Up/SingleShot -> None and no layout call; modifier/lock press -> Some(RawKey(self)) (NumLock with rctrl2 -> PauseBreak); any other press -> exactly one opaque call <L as KeyboardLayout>::map_keycode(&self.layout, code, &self.modifiers (unmodified at call time), self.handle_ctrl) whose result is returned as Some(..); setters write exactly their field. Parametric in L, so it covers user layouts too.",
+         TB + "reference/keys.json (which keys are modifier/lock keys)."),
+ 'C15': ('proof', '4 C15', LAY + "The 17 numpad keys and 6 editing keys produce exactly what the property pins, in every one of the 1024 states, per layout.",
+         TB + "reference/keys.json (pinned outputs; decimal separator per layout; De105Key accepts '.' or ',')."),
+ 'C16': ('proof', '4 C16', LAY + "The 52 character-less keys decode to RawKey(self) in every state of every layout; any RawKey(x) result anywhere has x = pressed key or its numpad alias with NumLock off. The 20 AnyLayout forms follow by C17.",
+         TB + "reference/keys.json (the 52 keys, alias map)."),
+ 'C17': ('proof', '4 C17', "Call-site rule on the two delegating impls with the inner layouts opaque: per variant, exactly one call whose resolved callee is <payload type as KeyboardLayout>::map_keycode, receiver = the payload place, other arguments = the wrapper's own parameters unmodified, result returned unchanged; holds for every key/modifier/mode because the arms do not inspect them (any input-dependent special case shows up as an extra path class).",
+         TB + "nothing else."),
+ 'C18': ('proof', '4 C18', "Per path class of each generic Keyboard<L,S> method with stage calls opaque: stage-call sequence, receivers/arguments by place identity and returned value match the three-stages-in-sequence wiring (a rejected frame never reaches the scancode decoder); fields of stages a method does not feed are structurally unchanged; no statics/unsafe. Disjoint mutable footprints + per-stage determinism give the product behaviour for every interleaving.",
+         TB + "Rust's aliasing rules (a callee given &mut self.ps2_decoder cannot reach the other stages in safe code)."),
  'C19': ('proof', '4 C19', "Self-consistency of each extracted automaton with no external oracle: Down(K) iff break form gives Up(K); keys are the image of at most one complete sequence. Exhaustive over contexts x codes.",
          TB + "the identification of the break form (F0 prefix for ScancodeSet2, bit 7 for ScancodeSet1) by public type name."),
+ 'C20': ('proof', '4 C20', "Two static witnesses: rustc's is_const_fn/visibility facts for the 14 listed items; and a generated compile-only no_std probe crate (static Keyboard for every layout and every AnyLayout variant x both sets, every accessor evaluated in const items, Send+Sync bounds on every public state type) that must type-check with the stable toolchain, with a canary crate that must fail with E0015. Proof by the type/const checker.",
+         "Trusted: rustc's const and auto-trait checking; the probe generator enumerating the layouts from the crate's own type facts."),
 }
 
 PENDING = {}
@@ -37,7 +70,7 @@ for pid in sorted(INFO):
         'thorough_cmd': './check %s thorough' % pid,
         'evidence_file': 'evidence/%s.json' % pid,
         'replay_cmd_template': './check %s --replay {path}' % pid,
-        'engine': 'mirtab',
+        'engine': 'mirtab' if pid != 'C20' else 'rustc (compile-only probe) + pkv-mirdump facts',
         'level_claimed': {'category': cat, 'text': text, 'design_ref': 'DESIGN.md section ' + ref},
         'level_note': note,
         'technique': RULES[pid][2],
